@@ -80,6 +80,8 @@ def gen_config(rng, *, fronts=(("interval", 6), ("reverse", 1.5), ("tree", 1.5),
         dt = (t1 - t0) * rng.choice([0.5, 0.1, 0.03, 0.01, 0.003, 1.7])
     pool = rng.choice([4, 8, 8, 24])
     entropy = rng.randrange(0, 2 ** 31 - 1) if rng.random() < 0.9 else None
+    if entropy is not None and rng.random() < 0.08:
+        entropy = rng.choice([0, 0, 1, 2 ** 31 - 2, 2 ** 40 + 7])  # edge values: zero is a valid seed
     # "refine early" knob, through the public API only: the first query is repeated `warm_rep` times, which uses up
     # (most of) the 100-query warm-up of the step-size estimator, so that the dependency tree is (re)built at a
     # PRNG-chosen moment of a short history.
@@ -277,7 +279,8 @@ def _q(ta, tb, U=False, A=False, tag=None, og=False):
 
 
 DEFAULT_MIX = {"uniform": 4, "sweep": 2, "adaptive": 2, "cluster": 2, "nested": 1, "tiny": 1, "requery": 3,
-               "whole": 0.5, "point": 0.7, "zero": 0.5, "triple": 3, "offgrid": 0.7, "dyadic": 1.5}
+               "whole": 0.5, "point": 0.7, "zero": 0.5, "triple": 3, "offgrid": 0.7, "dyadic": 1.5, "outside": 0.4,
+               "env": 0.25}
 
 
 def _dyadic(rng, cfg, dom):
@@ -400,6 +403,21 @@ def gen_ops(rng, cfg, dom, n_target, mix=None):
                 continue  # ReverseBrownian has no point form (tb=None is not supported by it)
             t = _dyadic(rng, cfg, dom) if rng.random() < 0.5 else _t(rng, cfg, dom)
             ops.append({"op": "point", "t": fx(t)})
+        elif k == "outside":
+            # partly or wholly outside the interval: accepted by the API (clipped with a warning). No value oracle,
+            # but it is one more "other interval queried in between" and must not disturb anything.
+            w = span * rng.choice([0.01, 0.3, 1.0, 2.5])
+            if rng.random() < 0.5:
+                a, b = dom[1] - w * rng.random(), dom[1] + w * rng.random() + 1e-9
+            else:
+                a, b = dom[0] - w * rng.random() - 1e-9, dom[0] + w * rng.random()
+            if rng.random() < 0.2:
+                a = b = dom[1] + w  # wholly outside
+            ops.append(_q(a, b, U, A, tag="outside", og=True))
+        elif k == "env":
+            # environment perturbation between queries: the process-wide default dtype is switched (legal, and
+            # irrelevant to an object whose dtype was fixed at construction)
+            ops.append({"op": "env", "default_dtype": rng.choice(["float32", "float64", "float64"])})
         elif k == "dyadic":
             a, b = ordered(_dyadic(rng, cfg, dom), _dyadic(rng, cfg, dom))
             ops.append(_q(a, b, U, A, tag="dyadic"))
@@ -436,6 +454,8 @@ def add_faults(rng, ops, rate):
     if rate <= 0:
         return
     for op in ops:
+        if op["op"] == "env":
+            continue
         fs = []
         if rng.random() < rate:
             for _ in range(rng.choice([1, 1, 2, 4])):
@@ -487,6 +507,18 @@ class CaseTooExpensive(PassThrough):
 def designed_c(cfg):
     cs = cfg["cache_size"]
     return 100 if cs is None else max(1, min(cs, 100))
+
+
+def apply_env(op):
+    """Environment op. Returns True if it was one (callers `continue`)."""
+    if op.get("op") != "env":
+        return False
+    torch.set_default_dtype(DTYPES[op["default_dtype"]])
+    return True
+
+
+def restore_env():
+    torch.set_default_dtype(torch.float32)
 
 
 class BMExec:
